@@ -56,7 +56,7 @@ def oracle(case, rec, group):
     # transparent: with every guard true, same values and same errors as the unguarded program
     if case.get("role") == "inlined" and group is not None:
         tw = [r for c, r in group if c.get("role") == "true-guards"]
-        if tw:
+        if tw and all(cv == 1 for cv in tw[0]["guard_conds"]) and not (tw[0]["msg"] or "").startswith("incorrect guard value"):
             g = tw[0]
             if (g["exn"] or None) != (rec["exn"] or None):
                 out.append(dict(op="transparent", key="exception", what="guarded (guard true) and unguarded versions end differently: %s vs %s" % (g["exn"], rec["exn"]), msg=[g["msg"], rec["msg"]]))
@@ -71,12 +71,12 @@ def oracle(case, rec, group):
 
 def post(cov, cases, recs):
     cov["runs_with_all_guards_false"] = sum(1 for c in cases if c.get("role") == "false-guards")
-    cov["transparency_pairs"] = sum(1 for c in cases if c.get("role") == "inlined")
+    cov["transparency_pairs"] = sum(1 for c, r in zip(cases, recs) if c.get("role") == "true-guards" and r["guard_conds"] and all(cv == 1 for cv in r["guard_conds"]))
     cov["raised_under_false_guard"] = sum(1 for r in recs if r["exn"] and r.get("exn_ctx") and false_guard(r["exn_ctx"]))
 
 
 def run(tier, seed):
-    return tracecheck.run(PID, tier, seed, PROFILE, oracle, n_quick=420, n_thorough=6000, variants=variants, post=post, mask=1 | 2 | 4 | 8)
+    return tracecheck.run(PID, tier, seed, PROFILE, oracle, n_quick=320, n_thorough=6000, variants=variants, post=post, mask=1 | 2 | 4 | 8)
 
 
 def replay(payload):
